@@ -242,5 +242,95 @@ def run_C29(ctx, args):
     ]
 
 
+# --------------------------------------------------------------------------- C11
+def ticks_of(state):
+    ts = {r[1] for r in state["h"]} | set(state["c"])
+    out = {t for x in ts for t in (x - 1, x, x + 1) if t >= 1}
+    out |= {x + 4321 for x in ts if x > 0}
+    return sorted(out)
+
+
+def world_of_walk(i, walk, rng):
+    steps = []
+    ncust = 0
+    cold_at = rng.randrange(len(walk))
+    for j, e in enumerate(walk):
+        o = e["o"]
+        if o["op"] == "append":
+            steps.append({"op": "append", "node": o["node"], "ts": o["ts"], "st": o["st"]})
+        else:
+            ncust += 1
+            steps.append({"op": "cust", "ts": o["ts"], "order": ncust})
+        # ask for every boundary tick of the ledger so far, in a seeded order; once per walk after a restart
+        qs = ticks_of(e["to"])
+        rng.shuffle(qs)
+        cold = (j == cold_at)
+        for n, t in enumerate(qs):
+            steps.append({"op": "views", "t": t, "cold": cold and n == 0})
+    return {"id": "v%d" % i, "g": 7, "x": 2, "nodes": 1, "steps": steps}
+
+
+def run_C11(ctx, args):
+    from vlib import build_walks
+    quick = ctx.tier == "quick"
+    rng = random.Random(ctx.seed)
+    d = ctx.specdir("Membership")
+    sfx = "" if quick else "_thorough"
+    ctx.tlc_mc(d, "MC_Membership_C11.tla", "MC_Membership_C11%s.cfg" % sfx, workers=8, timeout=1500)
+    if not quick:
+        for w in ("WitnessEqualTs", "WitnessChange"):
+            ctx.tlc_mc(d, "MC_Membership_C11.tla", "MC_Membership_C11_wit_%s.cfg" % w, workers=4,
+                       timeout=600, expect_violation=w, count=False)
+    ctx.exhaustive = True
+    edges = ctx.tlc_edges(d, "MC_Membership_C11.tla", "Gen_Membership_C11%s.cfg" % sfx, timeout=1500)
+    walks = build_walks(edges, rng=rng, n_random=0, depth=8, maxlen=8)
+    total = len(walks)
+    limit = 36 if quick else 400
+    if len(walks) > limit:
+        walks = rng.sample(walks, limit)
+    worlds = [world_of_walk(i, w, rng) for i, w in enumerate(walks)]
+    ctx.cov["edges"] = len(edges)
+    ctx.cov["cover_walks_total"] = total
+    ctx.cov["walks_replayed"] = len(walks)
+    cpath = os.path.join(ctx.scratch, "cases.json")
+    with open(cpath, "w") as fh:
+        json.dump({"worlds": worlds}, fh)
+    trace = os.path.join(ctx.scratch, "trace.ndjson")
+    ctx.log("E1: %d of %d edge-cover walks (%d edges), %d view queries"
+            % (len(walks), total, len(edges), sum(1 for w in worlds for s in w["steps"] if s["op"] == "views")))
+    ctx.go_harness("kernel", HARNESS, env={"VERIF_CASES": cpath, "VERIF_TRACE": trace}, timeout=1500)
+    events = read_ndjson(trace)
+    vs = [e for e in events if e["ev"] == "Views"]
+    ctx.evaluations = len(vs)
+    # distinct non-trivial = distinct (ledger so far, t) pairs that were asked again after a later append /
+    # restart (a repeated question is what the property constrains) - measured from the trace
+    seen, rep = set(), set()
+    hist = None
+    wid = 0
+    for e in events:
+        if e["ev"] == "Reset":
+            wid += 1
+            seen = set()
+        if e["ev"] == "Views":
+            k = (wid, e["t"])
+            if k in seen:
+                rep.add(k)
+            seen.add(k)
+    ctx.distinct = len(rep)
+    ctx.rule = ("edge-cover walks of the TLC state graph of MC_Membership_C11 (appends with equal/adjacent timestamps, "
+                "custodian updates) replayed on a real store + kernel.Node; after every append every boundary tick is "
+                "asked again in a seeded order, once per walk after a real restart (cold caches); evaluations = view "
+                "queries; distinct = (world, timestamp) pairs asked more than once")
+    ctx.samples = [strip(e) for e in vs[:2]]
+    validate(ctx, d, "C11", trace, events,
+             "a view for an earlier timestamp changed after a later record was appended / between warm and cold answers")
+    ctx.assumptions += [
+        "time is sampled on a 10 s grid; appended records carry non-decreasing timestamps (equal and adjacent ones included)",
+        "ConsensusKeys is observed on a chain with round state; the pledging chain's round-0 key set depends on the chain having no rounds yet, which is ledger state written by the accept itself (see report)",
+        "cold = the Node and BadgerStore objects are dropped and rebuilt by the real SetupNode on the same directory",
+        "custodian updates are written with genesis-typed inputs (storage does not look at the inputs); their extras are fully signed",
+    ]
+
+
 def run(ctx, args):
     raise Infra("use run_<id>")
